@@ -59,6 +59,14 @@ Clauses(ln, pv, rs) ==
      <<"NoCapture", (Has(ln, "combine") /\ ln.exc = "" /\ RepeatedNow(pv) = {} /\ rs = {}) =>
            LET c == ln.combine IN
            NoCapture(NetOf(pv.nets[c.a]), TensOf(pv), NetOf(pv.nets[c.b]), TensOf(pv), N[c.c], T)>>,
+     \* applying an operator network to a state lazily (tensors kept, labels joined) must rename the operator's private
+     \* bonds away from the state's: in the networks the driver names in `nohyper` (built from hyper-free parts) every
+     \* label sits on at most two axes - two previously distinct bonds never coincide
+     <<"NoNewHyper", Has(ln, "nohyper") =>
+           \A n \in SeqSet(ln.nohyper) : n \in DOMAIN N =>
+              \A x \in DOMAIN N[n].im :
+                 Cardinality({<<t, k>> \in UNION {{<<tt, kk>> : kk \in DOMAIN T[N[n].tmap[tt]].inds} : tt \in DOMAIN N[n].tmap} :
+                                  T[N[n].tmap[t]].inds[k] = x}) <= 2>>,
      \* S->C replays carry the state of the implementation-shaped model: a mismatch is a drift note
      <<"NOTE:ModelDrift", Has(ln, "model") =>
            /\ \A n \in DOMAIN ln.model.nets : n \in DOMAIN N /\ NetOf(ln.model.nets[n]) = N[n]
